@@ -537,7 +537,10 @@ char * dump_expr(void **elem, void *arg)
                                 dump_expr((void**)e->jdf_ba2, &ri) );
         break;
     case JDF_RANGE:
-        string_arena_add_string(sa,"\n#error ptg-compiler tried to dump a range expression\n");
+        /* A range where a single value is expected: this used to be written into the generated C
+         * as an #error while ptgpp itself exited with status 0. */
+        jdf_fatal(JDF_OBJECT_LINENO(e), "a range expression is used where a single value is expected\n");
+        exit(1);
         break;
     case JDF_TERNARY: {
         expr_info_t ti = EMPTY_EXPR_INFO;
